@@ -30,6 +30,14 @@ def do_replay(path):
     with open(path, encoding='utf-8') as f:
         rec = json.load(f)
     judge = C.Judge()
+    if rec.get('klass') == 'cli_real':
+        ok, out = C.real_replay(judge, rec['scenario'])
+        if ok:
+            print('NOT-REPRODUCED: the real tool now prints the expected bytes for the recorded scenario')
+            return core.EXIT_OK
+        print('REPRODUCED by the real tool: stdout=%s' % out[:200].hex())
+        print('VIOLATION property=C15 replay=%s' % path)
+        return core.EXIT_VIOLATION
     res = judge.run(rec['scenario'])
     v = res['violation']
     if v is None:
